@@ -458,6 +458,18 @@ def ident_pattern(M, ce, mod="dlde"):
                         continue
                     if isinstance(pat, str):
                         found.append((pat, n.func.attr))
+            if isinstance(n.func, ast.Name):
+                # a module-level name bound to `<compiled pattern>.match`
+                b_ = M.mod_consts.get(mod, {}).get(n.func.id)
+                if isinstance(b_, ast.Attribute) and b_.attr in ("match", "fullmatch", "search") and isinstance(b_.value, ast.Name):
+                    init = M.mod_consts.get(mod, {}).get(b_.value.id)
+                    if isinstance(init, ast.Call) and init.args and not init.keywords and len(init.args) == 1 and "compile" in ast.unparse(init.func):
+                        try:
+                            pat = ce.eval(init.args[0], {}, mod)
+                        except NotConstant:
+                            pat = None
+                        if isinstance(pat, str):
+                            found.append((pat, b_.attr))
             nm = n.func.id if isinstance(n.func, ast.Name) else n.func.attr if isinstance(n.func, ast.Attribute) else None
             if nm in funcs and len(seen) < 12:
                 work.append(funcs[nm])
